@@ -339,8 +339,9 @@ fn read_codec(metadata: &HashMap<String, Value>) -> AvroResult<Codec> {
                         use crate::Bzip2Settings;
                         if let Some(Value::Bytes(bytes)) =
                             metadata.get("avro.codec.compression_level")
+                            && let Some(level) = bytes.first()
                         {
-                            Ok(Codec::Bzip2(Bzip2Settings::new(bytes[0])))
+                            Ok(Codec::Bzip2(Bzip2Settings::new(*level)))
                         } else {
                             Ok(codec)
                         }
@@ -350,8 +351,9 @@ fn read_codec(metadata: &HashMap<String, Value>) -> AvroResult<Codec> {
                         use crate::XzSettings;
                         if let Some(Value::Bytes(bytes)) =
                             metadata.get("avro.codec.compression_level")
+                            && let Some(level) = bytes.first()
                         {
-                            Ok(Codec::Xz(XzSettings::new(bytes[0])))
+                            Ok(Codec::Xz(XzSettings::new(*level)))
                         } else {
                             Ok(codec)
                         }
@@ -361,8 +363,9 @@ fn read_codec(metadata: &HashMap<String, Value>) -> AvroResult<Codec> {
                         use crate::ZstandardSettings;
                         if let Some(Value::Bytes(bytes)) =
                             metadata.get("avro.codec.compression_level")
+                            && let Some(level) = bytes.first()
                         {
-                            Ok(Codec::Zstandard(ZstandardSettings::new(bytes[0])))
+                            Ok(Codec::Zstandard(ZstandardSettings::new(*level)))
                         } else {
                             Ok(codec)
                         }
